@@ -1,6 +1,7 @@
 import EaselModel.Containers.KeyhashLemmas
 import EaselModel.Containers.KeyhashBounds
 import EaselModel.Containers.KeyhashInt32
+import EaselModel.Containers.KeyhashReuse
 import EaselModel.Containers.KeyhashGrowthVariant
 import EaselModel.Containers.KeyhashApiLemmas
 import EaselModel.Containers.KeyhashFixedLemmas
@@ -10,6 +11,7 @@ import EaselModel.Containers.RedBlackLemmas
 import EaselModel.Containers.RedBlackPtrLemmas
 import EaselModel.Containers.RedBlackPtrInsert
 import EaselModel.Containers.RedBlackPtrHistory
+import EaselModel.Containers.RedBlackPtrPool
 import EaselModel.Containers.StackLemmas
 import EaselModel.Containers.StackHistory
 import EaselModel.Containers.StackThreadsLemmas
@@ -440,6 +442,33 @@ theorem keyhash_growth_guarded_never_overflows (need fuel s kalloc r : Nat) :
 example : ∃ k, 5000 ≤ 2048 * 2 ^ k ∧ 2048 * 2 ^ k ≤ INT_MAX := ⟨2, by decide, by decide⟩
 end KeyhashAtBound
 
+
+/-! ### `esl_keyhash_Reuse` empties EVERY slot, at any fill (round 6b) -/
+section KeyhashReuse
+open Keyhash
+
+/-- for ANY table state (any fill: 0 keys, fewer than hashsize/4, more than 3·hashsize; any stale content of `nxt[]`,
+    `key_offset[]`, the arena): after `esl_keyhash_Reuse` the table has its `hashsize` slots, EVERY one is `-1`, `nkeys = 0`,
+    `sn = 0`; a direct walk over `hashtable[]` (`slotStats`, the driver/harness op `kh_slots`) finds no used slot, no chained
+    record, no pointer outside `[0,nkeys)`, no cycle -/
+theorem keyhash_reuse_empties_every_slot (kh : KH) :
+    (reuse kh).hashtable.size = kh.hashsize ∧ (reuse kh).hashsize = kh.hashsize ∧ (reuse kh).nkeys = 0 ∧
+    (reuse kh).smem.size = 0 ∧ (∀ i, i < kh.hashsize → (reuse kh).hashtable[i]? = some none) ∧
+    slotStats (reuse kh) = SlotStats.zero :=
+  ⟨(reuse_slots_empty kh).1, (reuse_slots_empty kh).2.1, (reuse_slots_empty kh).2.2.1, (reuse_slots_empty kh).2.2.2.1,
+    (reuse_slots_empty kh).2.2.2.2, reuse_slotStats kh⟩
+
+/-- … hence after `Reuse` a lookup of any key (any bytes, embedded NULs included, any hash function into the table) answers
+    `eslENOTFOUND` at once, reading no record: whatever `nxt[]` and the arena still hold cannot be found again and no chain walk
+    can run on. (What the re-stored keys then get — 0, 1, 2, … — is `keyhash_refines`, whose histories contain `Reuse`.) -/
+theorem keyhash_reuse_lookup_immediate (H : Key → Nat → Nat) (hH : HashOK H) (kh : KH) (h0 : 0 < kh.hashsize) (key : Key) :
+    lookupF H (reuse kh) key = some (.enotfound, 0) := reuse_lookup_notfound H hH kh h0 key
+
+-- non-vacuity: a 4-slot table whose slot 2 is occupied (a stale chain head) is clean after Reuse
+example : slotStats (reuse { (create 4 2 8) with hashtable := #[none, none, some 0, none], nkeys := 1, nxt := #[none, none] }) = SlotStats.zero := by decide
+example : slotStats { (create 4 2 8) with hashtable := #[none, none, some 0, none], nkeys := 0, nxt := #[some 0, none] } = ⟨1, 0, 0, 1⟩ := by decide
+end KeyhashReuse
+
 /-! ## Red-black tree (insertion with recolouring and the four rotations as coded; keys: any integers) -/
 section RB
 open RedBlack RedBlack.Tree
@@ -740,6 +769,39 @@ example : ReprP (#[⟨1, .red, some 1, none, none⟩, ⟨2, .black, none, some 0
     (.node (.node .nil 0 .nil) 1 (.node .nil 2 .nil)) (some 1) none :=
   ⟨rfl, _, rfl, rfl, ⟨rfl, _, rfl, rfl, rfl, rfl⟩, ⟨rfl, _, rfl, rfl, rfl, rfl⟩⟩
 end RBPtrRefine
+
+
+/-! ### pointer histories WITH the node pool and give-back (round 6b) -/
+section RBPtrPool
+open RedBlackPtr
+
+/-- the caller's loop `node = pool; pool = pool->large; node->key = k; ret = insert(tree, node); if (ret == NULL) { node->large =
+    pool; pool = node; } else tree = ret;` for ANY well-formed tree laid out in the store, ANY free list (`FreeList`: a `large`-chain
+    of distinct unlinked records) disjoint from it and ANY key list no longer than the free list: never fails; the store then lays
+    out exactly `Tree.insertAll` of the keys; the free list is again a chain of unlinked records; tree records ++ free records
+    are a PERMUTATION of what they were — no record lost, none both in the tree and in the pool, none handed out twice (a refused
+    record is the next one taken); no other record is written -/
+theorem rb_ptr_pool_giveback (ks : List Int) (st : Store) (tree pool : Ptr) (t : Shape) (l : List Nat)
+    (hrep : ReprP st t tree none) (hnd : (t.ids ++ l).Nodup) (hwf : RedBlack.Tree.WF (absTree st t)) (hfree : FreeList st pool l)
+    (hlen : ks.length ≤ l.length) :
+    ∃ st' tree' pool' t' l', insertPool st tree pool ks = some (st', tree', pool') ∧ ReprP st' t' tree' none ∧
+      FreeList st' pool' l' ∧ (t'.ids ++ l').Perm (t.ids ++ l) ∧
+      RedBlack.Tree.insertAll (absTree st t) ks = some (absTree st' t') ∧ RedBlack.Tree.WF (absTree st' t') ∧
+      (∀ j, j ∉ t.ids ++ l → rd st' j = rd st j) := insertPool_refines ks st tree pool t l hrep hnd hwf hfree hlen
+
+/-- … from a fresh block, for EVERY key list, no hypothesis (its own non-vacuity): `pool_Create(|ks|)` then the loop above -/
+theorem rb_ptr_pool_giveback_history (st : Store) (ks : List Int) :
+    ∃ st' tree' pool' t' l', insertPool (poolCreate st ks.length).1 none (poolCreate st ks.length).2 ks = some (st', tree', pool') ∧
+      ReprP st' t' tree' none ∧ FreeList st' pool' l' ∧ (t'.ids ++ l').Perm (List.range' st.size ks.length) ∧
+      RedBlack.Tree.insertAll .nil ks = some (absTree st' t') ∧ RedBlack.Tree.WF (absTree st' t') ∧
+      (∀ j, j < st.size → rd st' j = rd st j) := pool_giveback_history st ks
+
+-- keys 5, 5, 3 from a block of three: the second 5 is refused, its record (1) is given back and carries the 3; record 2 stays free
+example : (insertPool (poolCreate #[] 3).1 none (poolCreate #[] 3).2 [5, 5, 3]).map (fun r => r.2) = some (some 0, some 2) := by decide
+example : (insertPool (poolCreate #[] 3).1 none (poolCreate #[] 3).2 [5, 5, 3]).map
+    (fun r => r.1.toList.map (fun nd => (nd.key, nd.parent, nd.large))) =
+    some [(5, none, none), (3, some 0, none), (0, none, none)] := by decide
+end RBPtrPool
 
 section RB2
 
